@@ -2,13 +2,16 @@ package sim
 
 import (
 	"bytes"
+	"context"
 	"encoding/binary"
+	"errors"
 	"fmt"
 	"io"
 	"math/rand"
 	"net/http"
 	"runtime"
 	"strings"
+	"sync"
 	"testing"
 	"time"
 
@@ -38,6 +41,7 @@ type Canned struct {
 	NoGRPC   bool       `json:"no_grpc_hdr,omitempty"`
 	Hdrs     []KV       `json:"hdrs,omitempty"`     // extra reply headers
 	ChunkN   int        `json:"chunk,omitempty"`    // the body reader hands out at most this many bytes per Read (0 = all)
+	Stall    bool       `json:"stall,omitempty"`    // after these bytes the peer neither sends more nor ends the reply (a handler that keeps streaming slowly, a stuck proxy): reads block until the body is closed or the request's context ends
 }
 
 // refFrame is the reference model of the wire format: a big-endian int32
@@ -89,6 +93,10 @@ type cannedBody struct {
 	abrupt bool
 	chunk  int
 	closed bool
+	stall  bool
+	ctx    context.Context
+	done   chan struct{}
+	once   sync.Once
 }
 
 type abruptErr struct{}
@@ -97,6 +105,14 @@ func (abruptErr) Error() string { return "simulated: connection reset while read
 
 func (b *cannedBody) Read(p []byte) (int, error) {
 	if len(b.data) == 0 {
+		if b.stall {
+			select {
+			case <-b.done:
+				return 0, errors.New("simulated: read on closed response body")
+			case <-b.ctx.Done():
+				return 0, b.ctx.Err()
+			}
+		}
 		if b.abrupt {
 			return 0, abruptErr{}
 		}
@@ -110,7 +126,11 @@ func (b *cannedBody) Read(p []byte) (int, error) {
 	b.data = b.data[n:]
 	return n, nil
 }
-func (b *cannedBody) Close() error { b.closed = true; return nil }
+func (b *cannedBody) Close() error {
+	b.closed = true
+	b.once.Do(func() { close(b.done) })
+	return nil
+}
 
 // cannedRT answers every request with the program's canned reply.
 type cannedRT struct {
@@ -147,7 +167,7 @@ func (rt *cannedRT) RoundTrip(r *http.Request) (*http.Response, error) {
 	}
 	return &http.Response{
 		Status: fmt.Sprintf("%d %s", st, http.StatusText(st)), StatusCode: st, Proto: "HTTP/1.1", ProtoMajor: 1, ProtoMinor: 1,
-		Header: h, Body: &cannedBody{data: data, abrupt: c.Abrupt, chunk: c.ChunkN}, ContentLength: -1, Request: r,
+		Header: h, Body: &cannedBody{data: data, abrupt: c.Abrupt, chunk: c.ChunkN, stall: c.Stall, ctx: r.Context(), done: make(chan struct{})}, ContentLength: -1, Request: r,
 	}, nil
 }
 
@@ -339,6 +359,10 @@ func init() {
 	extraOracles = append(extraOracles, oracleC07canned)
 	specialGenerators["c07"] = genC07
 	specialWorkers["c07"] = workerC07
+	// the same canned replies as plain seeded runs (no corpus enumeration):
+	// part of the C05 check (a reply the client has rejected, from a peer that
+	// neither continues nor ends it, must leave no goroutine behind)
+	specialGenerators["c07r"] = genC07
 }
 
 // cannedProgram wraps a canned reply into a one-RPC program.
@@ -417,6 +441,13 @@ func genC07(g *gen, seed int64) *Program {
 				}
 			}
 			c.Raw, c.RawNote = RawStr(b), "random bytes"
+		}
+		if _, ntr, _, _ := splitFrames([]byte(c.Raw)); rng.Intn(3) == 0 && ntr == 0 {
+			// the peer goes quiet inside the reply (by the reference decoder's
+			// reading there is no complete trailer frame): whatever the client
+			// makes of the bytes so far, it must not be left with a goroutine
+			// that reads on for as long as the peer likes
+			c.Stall, c.Abrupt = true, false
 		}
 		return cannedProgram(seed, kind, c, g)
 	}
